@@ -401,7 +401,7 @@ namespace vw
             double u = r.unit();
             return u < 0.5 ? 1 : (u < 0.75 ? 0 : 2);
         };
-        if (m_kind == G_PROFILE)
+        if (grid_is_profile(m_kind))
         {
             g.rows = 1;
             g.cols = static_cast<std::size_t>(r.range(2, large ? 200 : (thorough ? 40 : 16)));
@@ -905,7 +905,7 @@ namespace vw
         if (gs.kind != G_TRIMESH && mode == MODE_C07)
         {
             aux_spec.overrides.clear();
-            if (gs.kind == G_PROFILE)
+            if (grid_is_profile(gs.kind))
                 aux_spec.cols = gs.cols + 1;
             else
             {
